@@ -18,7 +18,8 @@ from .common import pyval, Infra, VERIF
 GEN_FUNCTIONS = ['move_dist_t3', 'rate_t3']
 RULE = ('one case per input tuple (T, rate, accel, jerk, accumulator|clear) inside the firmware-valid domain; generators: '
         'exhaustive small box, the 7 outcomes of the three-level clear test, accel parity x jerk mod 6 x signs (both sides '
-        'of the 0.01 snap), T in {1,2,3,4}, magnitudes at the edge of firmware validity (jerk at the Markov limit, '
+        'of the 0.01 snap), T in {1,2,3,4}, a rate exactly on a bound of the signed 32-bit range (end / first / vertex / '
+        'interior tick equal to -2^31, 2^31-1, -(2^31-1)), magnitudes at the edge of firmware validity (jerk at the Markov limit, '
         'T up to 2^32 with zero jerk), zero jerk, random; non-trivial = first-tick rate zero, or non-zero snap '
         'correction, or T > 4; distinct by input tuple')
 TRUSTED = ['translator/pynum2lean.py (validated by this correspondence run)',
@@ -26,7 +27,7 @@ TRUSTED = ['translator/pynum2lean.py (validated by this correspondence run)',
            'T3.Contract (round-to-nearest: exact on representable values, relative error 2^-p) as hypothesis on R; '
            'instance proved for Rounding.exact only',
            'mpmath.mpf.__round__ = exact round-half-even on the rational value (read from mpmath 1.4 source)']
-ASSUMPTIONS = ['integer arguments; 1 <= T <= 2^32; every per-tick |rate| <= 2^31-1 and |accel| <= 2^31 '
+ASSUMPTIONS = ['integer arguments; 1 <= T <= 2^32; every per-tick rate in the signed 32-bit range [-2^31, 2^31-1] and |accel| <= 2^31 '
                '(T3.ValidT3, spelled out by theorem C02_valid_iff); explicit accumulator in [0, 2^31)',
                'rate_t3(0, ...) returns rate+accel+jerk: T = 0 is outside the property (logged only)']
 STAGED = ['nothing staged: C02_rate_closed, C02_total_closed, C02_clear_iff, C02_envelope (firmware validity implies the '
@@ -95,14 +96,22 @@ def peak_closed(T, rate, accel, jerk):
     return max(abs(rate_at(rate, accel, jerk, k)) for k in extreme_ticks(T, accel, jerk))
 
 
+def rate_range(T, rate, accel, jerk):
+    """(min, max) of r_k over ticks 1..T, exactly (the extremes are at the ends or next to the vertex)"""
+    vals = [rate_at(rate, accel, jerk, k) for k in extreme_ticks(T, accel, jerk)]
+    return min(vals), max(vals)
+
+
 def firmware_valid(T, rate, accel, jerk):
-    """the domain of C02/C17: 1 <= T <= 2^32, every per-tick |r_k| <= 2^31-1 (k = 1..T) and every
-    |a_k| <= 2^31 (k = 0..T); evaluated exactly at the extremes of the quadratic / linear sequences"""
+    """the domain of C02/C17: 1 <= T <= 2^32, every per-tick rate within the SIGNED 32-bit range
+    -2^31 <= r_k <= 2^31-1 (k = 1..T; asymmetric: -2^31 is a valid rate) and every |a_k| <= 2^31 (k = 0..T);
+    evaluated exactly at the extremes of the quadratic / linear sequences"""
     if not (1 <= T <= 2 ** 32):
         return False
     if max(abs(accel), abs(accel + T * jerk)) > M31:
         return False
-    return peak_closed(T, rate, accel, jerk) <= M31 - 1
+    lo, hi = rate_range(T, rate, accel, jerk)
+    return -M31 <= lo and hi <= M31 - 1
 
 
 def clear_value(rate, accel, jerk):
@@ -254,6 +263,43 @@ def gen_extreme(rng):
     return T, rate, accel, jerk
 
 
+BOUND_TARGETS = [-M31, -M31, M31 - 1, -(M31 - 1), M31 - 2, -M31 + 2]
+
+
+def gen_bound(rng):
+    """exact coincidences with the range bounds: the rate at the last tick, at the first tick, at the tick next to
+    the vertex or at a random tick is exactly -2^31, 2^31-1, -(2^31-1) (or one/two inside); accel/jerk are
+    chosen so that this tick is the extreme of the move (monotone ramp into the bound, or a vertex touching it)"""
+    T = rng.choice([1, 2, 3, 4, rng.randint(2, 12), rng.randint(2, 60), rng.randint(2, 3000), rng.randint(3000, 100000)])
+    v = rng.choice(BOUND_TARGETS)
+    s = -1 if v < 0 else 1                      # the bound is approached from inside: rates move in direction s
+    shape = rng.choice(['end', 'end', 'start', 'vertex', 'flat', 'any'])
+    amax = max(1, (M31 // 2) // T)
+    if shape == 'flat':
+        accel, jerk, k = 0, 0, rng.randint(1, T)
+    elif shape == 'end':                        # monotone toward the bound, reached at tick T
+        k = T
+        jerk = s * rng.choice([0, 0, 1, 2, 6, rng.randint(0, max(1, amax // T))])
+        accel = s * rng.choice([0, 1, 2, 10, rng.randint(0, amax)])
+    elif shape == 'start':                      # leaves the bound at tick 1
+        k = 1
+        jerk = -s * rng.choice([0, 0, 1, 3, rng.randint(0, max(1, amax // T))])
+        accel = -s * rng.choice([0, 1, 2, 60, rng.randint(0, amax)])
+    elif shape == 'vertex':                     # parabola touching the bound at its vertex tick k
+        k = rng.randint(1, T)
+        jerk = -s * rng.choice([1, 2, 6, 7, rng.randint(1, max(1, (4 * M31) // (T * T)))])
+        accel = -jerk * k + jerk // 2 + rng.choice([0, 0, 1, -1])
+    else:
+        k = rng.randint(1, T)
+        jerk = rng.randint(-6, 6)
+        accel = rng.randint(-amax, amax)
+    rate = v - rate_at(0, accel, jerk, k)       # r_k is affine in `rate` with slope 1
+    if shape == 'vertex':                       # put the true extreme (a tick next to k) on the bound
+        lo, hi = rate_range(T, rate, accel, jerk)
+        rate += (v - lo) if s < 0 else (v - hi)
+    return T, rate, accel, jerk
+
+
 def gen_vertex(rng):
     """C17: place the vertex t* = 1/2 - accel/jerk of the rate parabola at chosen spots of the move"""
     T = rng.choice([1, 2, 3, 4, 5, 6, rng.randint(5, 40), rng.randint(40, 3000), rng.randint(3000, 150000)])
@@ -327,6 +373,8 @@ def gen_cases(ctx):
         cases.append(gen_random(rng))
     for _ in range(ctx.n(4000)):
         cases.append(gen_extreme(rng))
+    for _ in range(ctx.n(3000)):     # a rate exactly on a bound of the signed 32-bit range
+        cases.append(gen_bound(rng))
     for _ in range(ctx.n(1500)):     # zero jerk, any T
         T = rng.choice([1, 2, 3, rng.randint(1, 1000), rng.randint(1, 2 ** 20), rng.randint(1, 2 ** 32)])
         accel = rng.randint(-(2 * M31) // T - 1, (2 * M31) // T + 1)
@@ -363,6 +411,7 @@ def run(ctx):
         meta.append((c, dps))
     outs = ctx.driver.batch(lines) if ctx.driver else [None] * len(lines)
     closed_checked = 0
+    judged = []
     for i, (c, dps) in enumerate(meta):
         T, rate, accel, jerk, acc = c
         m_dist, m_rate, s_dist, s_rate = outs[4 * i:4 * i + 4]
@@ -395,7 +444,7 @@ def run(ctx):
         # ---- oracle: the firmware recurrence ----
         if T <= BRUTE_MAX_T:
             rates, accs, tot = brute(T, rate, accel, jerk)
-            assert max(abs(x) for x in rates) <= M31 - 1 and max(abs(x) for x in accs) <= M31, \
+            assert -M31 <= min(rates) and max(rates) <= M31 - 1 and max(abs(x) for x in accs) <= M31, \
                 'harness bug: closed-form validity test disagrees with brute force'
             want_rate = rates[-1]
             want_dist = spec_dist(T, rate, accel, jerk, acc, brute_tot=tot)
@@ -412,6 +461,13 @@ def run(ctx):
                ('|brute' if T <= BRUTE_MAX_T else '|closed')
         nontriv = (acc == 'clear' and rate_at(rate, accel, jerk, 1) == 0) or cs != 0 or T > 4
         ctx.count(c, path, nontriv)
+        lo, hi = rate_range(T, rate, accel, jerk)
+        for tag, hit in (('end=-2^31', want_rate == -M31), ('end=2^31-1', want_rate == M31 - 1),
+                         ('end=-(2^31-1)', want_rate == -(M31 - 1)), ('min=-2^31 inside', lo == -M31 and want_rate != -M31),
+                         ('max=2^31-1 inside', hi == M31 - 1 and want_rate != M31 - 1)):
+            if hit:
+                ctx.paths['bound:' + tag] = ctx.paths.get('bound:' + tag, 0) + 1
+        judged.append((c, dps, want_dist, want_rate))
         ctx.sample({'input': inp, 'impl': [i_dist, i_rate], 'required': [pyval(want_dist), want_rate]})
         if s_dist not in (None, 'BAD') and (s_dist != pyval(want_dist) or s_rate != str(want_rate)):
             raise Infra(f'Lean Spec (Fw.t3Spec/Fw.t3Rate) and the Python oracle differ on {inp}: {s_dist} {s_rate} '
@@ -425,6 +481,35 @@ def run(ctx):
             g_lt = ebb_calc.move_dist_lt(rate, accel, T, acc)
             if tuple(g_lt) != tuple(g_dist):
                 ctx.violate('zero jerk: move_dist_t3 differs from move_dist_lt', inp, i_dist, pyval(tuple(g_lt)))
+    # ---- sequences of related calls in one process: no reset of mp.dps between calls (each call inherits what the
+    # previous one left behind), neighbours share all but one argument, every call of the sequence is judged ----
+    seq = rng.sample(judged, min(len(judged), ctx.n(1500)))
+    seq.sort(key=lambda j: (j[0][0], j[0][2], j[0][3]))          # same T/accel/jerk next to each other
+    seq = seq + [j for j in reversed(seq)][:len(seq) // 2]        # and the same inputs again later in the process
+    mpmath.mp.dps = rng.choice(DPS)
+    for n, (c, dps, want_dist, want_rate) in enumerate(seq):
+        T, rate, accel, jerk, acc = c
+        if n % 7 == 0:
+            mpmath.mp.dps = rng.choice(DPS)
+        inp = {'T': T, 'rate': rate, 'accel': accel, 'jerk': jerk, 'accum': acc, 'mp.dps': mpmath.mp.dps,
+               'stream': f'call {n} of a sequence without precision reset'}
+        try:
+            order = rng.random() < 0.5
+            if order:
+                g_rate = ebb_calc.rate_t3(T, rate, accel, jerk)
+            g_dist = ebb_calc.move_dist_t3(T, rate, accel, jerk, acc)
+            if not order:
+                g_rate = ebb_calc.rate_t3(T, rate, accel, jerk)
+        except Exception as ex:
+            ctx.violate(f'move_dist_t3/rate_t3 raised {type(ex).__name__} (sequence)', inp, repr(ex), 'a prediction')
+            continue
+        ctx.count(('seq', n, c), 'sequence', False)
+        if tuple(g_dist) != want_dist:
+            ctx.violate('move_dist_t3 differs from the firmware recurrence (call sequence)', inp, pyval(tuple(g_dist)),
+                        pyval(want_dist))
+        if g_rate != want_rate:
+            ctx.violate('rate_t3 differs from the firmware rate at tick T (call sequence)', inp, pyval(g_rate),
+                        str(want_rate))
     # ---- T = 0 and non-integer-valued floats: outside the property, logged only ----
     for (rate, accel, jerk) in ((5, 3, 1), (0, 0, 0)):
         mpmath.mp.dps = 30
@@ -438,6 +523,8 @@ def run(ctx):
     need = [p + s for p in CLEAR_PATHS for s in ('|snap|brute', '|nosnap|brute')] + \
            ['given|snap|brute', 'given|nosnap|brute', 'given|snap|closed', 'given|nosnap|closed']
     need = [p for p in need if not p.startswith('r1=r2=r3=0|nosnap')]   # accel = jerk = 0 always snaps
+    need += ['bound:end=-2^31', 'bound:end=2^31-1', 'bound:end=-(2^31-1)', 'bound:min=-2^31 inside',
+             'bound:max=2^31-1 inside', 'sequence']
     missing = [p for p in need if ctx.paths.get(p, 0) == 0]
     if missing:
         raise Infra(f'model paths without input: {missing}')
